@@ -28,6 +28,9 @@ pub struct PpCfg {
     /// include file names that exist in several include directories
     pub multi_dir: bool,
     pub cond_weight: usize,
+    /// let plain text stand directly in front of a conditional directive (trigger of listed finding K7: the white
+    /// space owned by the directive's operand is dropped, so the text may run into the branch's first token)
+    pub glue: bool,
 }
 
 impl PpCfg {
@@ -48,6 +51,7 @@ impl PpCfg {
             max_depth: 3,
             multi_dir: true,
             cond_weight: 3,
+            glue: false,
         }
     }
 }
@@ -71,6 +75,8 @@ pub struct Case {
     pub fault: Option<Fault>,
     pub k1_sites: usize,
     pub k2_sites: usize,
+    /// plain tokens standing directly in front of a conditional directive (top file)
+    pub glue_sites: usize,
     /// number of files included a second time
     pub reincludes: usize,
     /// directory all files live in
@@ -107,6 +113,7 @@ struct G<'a, 'b> {
     fault: Option<Fault>,
     k1_sites: usize,
     k2_sites: usize,
+    glue_sites: usize,
     /// index of the file being generated
     cur_file: usize,
     include_depth: usize,
@@ -856,6 +863,36 @@ pub fn body_has_btstring(d: &MacroDef) -> bool {
 }
 
 /// Generate a case whose files live under `dir` (not written yet).
+/// Strip the white space between a plain token and a directly following conditional directive (every second such
+/// site), recursively through the branches. Returns the number of sites changed.
+fn glue_pass(items: &mut Vec<Item>, t: &mut Tape) -> usize {
+    let mut n = 0;
+    for i in 0..items.len() {
+        let next_is_cond = matches!(items.get(i + 1), Some(Item::Cond(_)));
+        match &mut items[i] {
+            Item::Text(ps) if next_is_cond => {
+                if let Some((piece, ws)) = ps.last_mut() {
+                    if matches!(piece, Piece::Ident(_) | Piece::Num(_) | Piece::Punct(_)) && t.flip() {
+                        ws.clear();
+                        n += 1;
+                    }
+                }
+            }
+            Item::Cond(c) => {
+                n += glue_pass(&mut c.then, t);
+                for (_, _, body) in c.elsifs.iter_mut() {
+                    n += glue_pass(body, t);
+                }
+                if let Some((_, body)) = c.els.as_mut() {
+                    n += glue_pass(body, t);
+                }
+            }
+            _ => {}
+        }
+    }
+    n
+}
+
 pub fn generate(t: &mut Tape, cfg: &PpCfg, dir: &str) -> Case {
     let n_paths = if cfg.includes { 1 + t.below(3) } else { 0 };
     let mut include_paths: Vec<String> = (0..3).map(|i| format!("{}/d{}", dir, i)).collect();
@@ -877,6 +914,7 @@ pub fn generate(t: &mut Tape, cfg: &PpCfg, dir: &str) -> Case {
         fault: None,
         k1_sites: 0,
         k2_sites: 0,
+        glue_sites: 0,
         cur_file: 0,
         include_depth: 0,
         n_inc: 0,
@@ -901,6 +939,9 @@ pub fn generate(t: &mut Tape, cfg: &PpCfg, dir: &str) -> Case {
     g.table = initial.clone();
     let depth = cfg.max_depth;
     let mut items = g.items(true, depth);
+    if cfg.glue {
+        g.glue_sites = glue_pass(&mut items, g.t);
+    }
     if items.is_empty() {
         items.push(Item::Text(vec![(Piece::Ident("t0".to_string()), "\n".to_string())]));
     }
@@ -925,6 +966,7 @@ pub fn generate(t: &mut Tape, cfg: &PpCfg, dir: &str) -> Case {
         fault: g.fault,
         k1_sites: g.k1_sites,
         k2_sites: g.k2_sites,
+        glue_sites: g.glue_sites,
         reincludes: g.reincludes,
         dir: g.dir,
     }
